@@ -75,6 +75,18 @@ func main() {
 			q := quads(f)
 			heldID, held, heldSnap = append(heldID, int(hx.Int(c["id"]))), append(held, f), append(heldSnap, q)
 			return map[string]any{"filter": q, "len": fp.Len}
+		case "names":
+			// the tracer's name lookups happen between builds in a long-lived process: they must leave the table alone
+			out := []string{}
+			for _, v := range c["nums"].([]any) {
+				n, err := libseccomp.ToSyscallName(uint(hx.Int(v)))
+				if err != nil {
+					out = append(out, "!")
+				} else {
+					out = append(out, n)
+				}
+			}
+			return map[string]any{"names": out}
 		case "recheck":
 			// the filters returned earlier, read again now
 			changed := []map[string]any{}
